@@ -75,7 +75,7 @@ Proof.
   assert (Pv1 : same_pv (n_p s0) p1) by (unfold same_pv, p1; simpl; auto).
   destruct (do_mut_cases (MSnapCommit m) s0) as [E | E]; rewrite E; cbv beta iota delta [bind].
   { simpl. exists C. split; [reflexivity|]. split; [exact Sh1 | exact Pv1]. }
-  set (s1 := upd_p s0 p1 (n_cnt s0 + 1) (n_muts s0 ++ [MSnapCommit m])).
+  match goal with |- context [trim_log ?x _] => set (s1 := x) end.
   assert (Hs1 : sd_out C s0 (Ret s1)).
   { simpl. exists C. split; [reflexivity|]. split; [exact Sh1|]. split; [exact Pv1 | unfold vols; simpl; repeat split; reflexivity]. }
   unfold trim_log. change (p_log (n_p s1)) with (p_log (n_p s0)).
